@@ -884,6 +884,8 @@ func (g *Gen) emitAxioms(entry *State) {
 		}
 		env := &SpecEnv{g: g, st: axst, old: axst, fn: g.f, argOverride: map[string]Term{}, bound: map[string]Term{}, boundTypes: map[string]types.Type{}}
 		ok := true
+		var hyps []string
+		w.axOuter = len(saved)
 		for _, b := range ax.Binders {
 			bt, err := env.resolveType(b.Typ)
 			if err != nil {
@@ -898,11 +900,19 @@ func (g *Gen) emitAxioms(entry *State) {
 			w.binders = append(w.binders, binderT{name, w.sortOf(bt)})
 		}
 		if ok {
+			w.axInner = len(w.binders)
+			w.axHyps = &hyps
 			t, err := env.evalBool(ax.Expr)
+			w.axHyps = nil
 			if err != nil {
 				g.note("spec error in axiom: %v", err)
 			} else if ax.Name == "" {
-				w.assume(t.S) // closed over all active binders it mentions
+				body := t.S
+				if len(hyps) > 0 {
+					// the axiom speaks about well-typed heaps only: typing and allocation facts of what it reads are hypotheses
+					body = "(=> (and " + strings.Join(hyps, " ") + " true) " + body + ")"
+				}
+				w.assume(body) // closed over all active binders it mentions
 			} else if false {
 				// manual axiom: triggered only by use_<name>(binders)
 				var bs, srts, names []string
@@ -1358,6 +1368,9 @@ func solve(g *Gen, fname string) ([]result, bool) {
 			continue
 		}
 		r := result{ob: o, status: s, solver: "z3-4.8.12/incremental"}
+		if os.Getenv("GOVC_DUMP_ALL") != "" {
+			r.smt = standalone[i] // debugging aid: keep the stand-alone query of every obligation
+		}
 		res = append(res, r)
 		ri := len(res) - 1
 		need := s != "unsat" || crossCheck
